@@ -82,6 +82,8 @@ def main(here, argv):
         name = getattr(layer_fn, "layer_name", "layer")
         if a["only"] and name not in a["only"]:
             continue
+        if name in os.environ.get("VERIF_SKIP_LAYERS", "").split(","):
+            continue  # development aid (selftest): e.g. VERIF_SKIP_LAYERS=miri
         try:
             r = layer_fn()
         except L.Skip as e:
